@@ -110,6 +110,7 @@ type scriptParams struct {
 	Kind   string `vgirpc:"kind"` // dynamic method only: ex | pr
 	Hdr    int64  `vgirpc:"hdr"`  // > 0: StreamResult.Header carries this value
 	Dual   int64  `vgirpc:"dual"` // static methods: the state type implements both stream interfaces
+	HPad   int64  `vgirpc:"hpad"` // > 0 (with hdr > 0): the header also carries a string of this many bytes
 }
 
 var scriptParamsSchema = arrow.NewSchema([]arrow.Field{
@@ -119,6 +120,7 @@ var scriptParamsSchema = arrow.NewSchema([]arrow.Field{
 	{Name: "kind", Type: arrow.BinaryTypes.String},
 	{Name: "hdr", Type: arrow.PrimitiveTypes.Int64},
 	{Name: "dual", Type: arrow.PrimitiveTypes.Int64},
+	{Name: "hpad", Type: arrow.PrimitiveTypes.Int64},
 }, nil)
 
 // scriptHeader is the stream header the scripted methods return.
@@ -129,6 +131,17 @@ type scriptHeader struct {
 var scriptHeaderSchema = arrow.NewSchema([]arrow.Field{{Name: "n", Type: arrow.PrimitiveTypes.Int64}}, nil)
 
 func (h *scriptHeader) ArrowSchema() *arrow.Schema { return scriptHeaderSchema }
+
+// scriptPadHeader is a stream header of a chosen serialized size (the header batch is whatever the
+// returned value serializes to; the registered header schema is descriptive only).
+type scriptPadHeader struct {
+	N   int64  `vgirpc:"n"`
+	Pad string `vgirpc:"pad"`
+}
+
+var scriptPadHeaderSchema = arrow.NewSchema([]arrow.Field{{Name: "n", Type: arrow.PrimitiveTypes.Int64}, {Name: "pad", Type: arrow.BinaryTypes.String}}, nil)
+
+func (h *scriptPadHeader) ArrowSchema() *arrow.Schema { return scriptPadHeaderSchema }
 
 type streamCfg struct {
 	cache     bool
@@ -215,6 +228,9 @@ func scriptStreamHandler(kind string) func(context.Context, *vgirpc.CallContext,
 		}
 		if p.Hdr > 0 {
 			res.Header = &scriptHeader{N: p.Hdr}
+			if p.HPad > 0 {
+				res.Header = &scriptPadHeader{N: p.Hdr, Pad: strings.Repeat("h", int(p.HPad))}
+			}
 		}
 		return res, nil
 	}
@@ -425,6 +441,23 @@ func ipcEndsWithEOS(body []byte) bool {
 	return bytes.HasSuffix(body, []byte{0xff, 0xff, 0xff, 0xff, 0, 0, 0, 0})
 }
 
+// headerStreamLen: when the body holds two or more IPC streams (an /init answer of a method with a
+// stream header), the byte length of the first one (the header stream); otherwise 0.
+func headerStreamLen(body []byte) int {
+	if countIPCStreams(body) < 2 {
+		return 0
+	}
+	r := bytes.NewReader(body)
+	rd, err := ipc.NewReader(r)
+	if err != nil {
+		return 0
+	}
+	for rd.Next() {
+	}
+	rd.Release()
+	return len(body) - r.Len()
+}
+
 // parseIPCBody reads every concatenated IPC stream of a response body.
 func parseIPCBody(body []byte) ([]respBatch, bool) {
 	var out []respBatch
@@ -476,8 +509,17 @@ func (e *streamEnv) initBodyFull(method, kind string, hdr int64, cancel, prog st
 
 // initBodyDual: dual = ask a static method for a state type that implements both stream interfaces.
 func (e *streamEnv) initBodyDual(method, kind string, hdr int64, dual bool, cancel, prog string) []byte {
+	return e.initBodyPad(method, kind, hdr, 0, dual, cancel, prog)
+}
+
+// initBodyPad also sizes the header value (hpad bytes of string next to the number).
+func (e *streamEnv) initBodyPad(method, kind string, hdr, hpad int64, dual bool, cancel, prog string) []byte {
 	mem := memory.NewGoAllocator()
-	cols := make([]arrow.Array, 6)
+	cols := make([]arrow.Array, 7)
+	pb := array.NewInt64Builder(mem)
+	pb.Append(hpad)
+	cols[6] = pb.NewArray()
+	pb.Release()
 	for i, v := range []string{prog, cancel, e.recID, kind} {
 		b := array.NewStringBuilder(mem)
 		b.Append(v)
